@@ -74,8 +74,9 @@ func VerifC16_Selection() {
 	now := vrtCmdInstant(h, "now")
 	vrtCmdAssumeClock(h, now)
 	vrt.SetClock(uint32(now))
-	// content does not matter for this obligation: never-written files in the quick tier
-	sbase, dbase := vrtC16TreeX(now, h, true, vrt.Tier() == 1)
+	// content does not matter for this obligation (absent series come from the selection and the
+	// window, not from what is stored): never-written files
+	sbase, dbase := vrtC16TreeX(now, h, true, false)
 	cmdID := vrt.Choose("cmd", 7)
 	aid := -1 + vrt.Choose("archive", 4) // -1, 0, 1, 2 (out of range)
 	var from wt.Timestamp
@@ -101,7 +102,7 @@ func VerifC16_TextOut() {
 	now := vrtCmdInstant(h, "now")
 	vrtCmdAssumeClock(h, now)
 	vrt.SetClock(uint32(now))
-	sbase, dbase := vrtC16TreeX(now, h, true, vrt.Tier() == 1)
+	sbase, dbase := vrtC16TreeX(now, h, true, false)
 	cmdID := vrt.Choose("cmd", 8)
 	bad := vrt.NoDir("out.txt")
 	if vrt.Choose("fault", 2) == 1 {
